@@ -516,6 +516,11 @@ func cmdCheck(args []string) int {
 		for _, r := range con.Requires {
 			assumptions = append(assumptions, con.Key+": requires "+r.Text+" (checked at call sites under contract; assumed for callers outside)")
 		}
+		if con.NoRte {
+			assumptions = append(assumptions, con.Key+": absence of run-time errors is NOT claimed for this function (norte): only its contract clauses are proved, assuming execution does not panic")
+		} else if con.NoNil {
+			assumptions = append(assumptions, con.Key+": nil dereferences are not claimed for this function (nonil)")
+		}
 	}
 	assumptions = append(assumptions, propAssumptions[prop]...)
 	sort.Strings(g.fns)
